@@ -66,6 +66,7 @@ class Env:
             self.g = self.it.new(self.Grid, size=size_arg, spacing=STensor.from_flat(self.s, [D]),
                                  center=STensor.from_flat(self.c, [D]), direction=self.R, align_corners=ac)
         self.GW = self.gw(self.g)
+        del symt.ROUND_EVENTS[:]
 
     def gw(self, g: Obj) -> STensor:
         return as_h(self.it.method(g, "transform", self.it.enum(self.Axes, "GRID"), self.it.enum(self.Axes, "WORLD")))
@@ -75,6 +76,12 @@ class Env:
 
     def check_rel(self, g2: Obj, scale, offset, size2=None) -> Tuple[bool, str]:
         """GW(g2) == GW(g) o (i = scale*j + offset), direction/align_corners unchanged, and optionally size."""
+        ev = list(symt.ROUND_EVENTS)
+        del symt.ROUND_EVENTS[:]
+        if ev:
+            # the library documents rounding for cube coordinates and grid indices only: the world position of a derived grid's samples
+            # is in the user's unit (a grid with spacing 2.5e-7 m is as valid as one with 0.25 mm) and must not be quantised
+            return False, f"the derivation rounded coordinates to {ev} decimals on the way to the world position of the derived grid"
         want = compose(self.GW, diag_h(scale, offset))
         got = self.gw(g2)
         if not teq(got, want):
@@ -347,6 +354,44 @@ def _resize_family(ctx: Ctx, F) -> None:
                             pass
                         return True, ""
                     _guard(ctx, "T9.resize-family", f"{tag}:pyramid:{levels}", F["pyramid"], f"op=pyramid levels={levels} {tag}", pyr)
+                # pyramid(min_size=, dims=): an axis whose halved size would fall below min_size keeps the size (and spacing) of the finer
+                # level, axes not listed in dims are not touched; centre, orientation and cube extent as for every level
+                for levels, msz, dims in ((2, 3, None), (3, 4, None), (2, max(size), None), (2, min(size) + 20, None), (2, 0, (0,)), (2, 3, (D - 1,))):
+                    def pyrm(levels=levels, msz=msz, dims=dims):
+                        kw = dict(min_size=msz)
+                        if dims is not None:
+                            kw["dims"] = list(dims)
+                        p = it.method(g, "pyramid", levels, **kw)
+                        if sorted(p.keys()) != list(range(levels + 1)):
+                            return False, f"levels {sorted(p.keys())}"
+                        ce0 = it.method(p[0], "cube_extent")
+                        prev = None
+                        for lv in range(levels + 1):
+                            gl = p[lv]
+                            if not teq(it.method(gl, "cube_extent"), ce0):
+                                return False, f"cube extent differs at level {lv}"
+                            if not teq(it.method(gl, "center"), STensor.from_flat(env.c, [D])):
+                                return False, f"center moved at level {lv}"
+                            if not teq(it.method(gl, "direction"), env.R):
+                                return False, f"direction changed at level {lv}"
+                            n = [int(x) for x in env.size_of(gl)]
+                            if prev is not None:
+                                for d, (a, b) in enumerate(zip(prev, n)):
+                                    if dims is not None and d not in dims:
+                                        want = a
+                                    else:
+                                        want = (a + 1) // 2 if (a + 1) // 2 >= msz else a
+                                    if b != want:
+                                        return False, (f"level {lv} axis {d}: size {a} -> {b}, documented {want} (min_size={msz}: an axis that would "
+                                                       f"fall below it is not reduced; dims={dims})")
+                            elif dims is not None:
+                                for d in range(D):
+                                    if d not in dims and n[d] != int(size[d]):
+                                        return False, f"level 0 axis {d} not in dims={dims} was resized: {size[d]} -> {n[d]}"
+                            prev = n
+                        return True, ""
+                    _guard(ctx, "T9.resize-family", f"{tag}:pyramid:{levels}:min_size={msz}:dims={dims}", F["pyramid"],
+                           f"op=pyramid levels={levels} min_size={msz} dims={dims} {tag}", pyrm)
                 # resample
                 for fac in (Fraction(1, 2), Fraction(3, 2), 2):
                     def res(fac=fac):
